@@ -457,6 +457,11 @@ class Shaper:
         if isinstance(e, ast.BinOp):
             a = self._expr(f, e.left, env, out)
             b = self._expr(f, e.right, env, out)
+            # a token (an integer read off the wire, a length) plus or minus the literal zero is the token
+            if isinstance(e.op, (ast.Add, ast.Sub)) and b == "0" and (a.startswith(("n", "t", "len(")) and not a.startswith("not")):
+                return a
+            if isinstance(e.op, ast.Add) and a == "0" and b.startswith(("n", "t", "len(")):
+                return b
             return f"({a} {_OPS.get(type(e.op), '?')} {b})"
         if isinstance(e, ast.Compare):
             parts = [self._expr(f, e.left, env, out)]
